@@ -94,6 +94,15 @@ func Gen(t *rapid.T) *Case {
 				ops[0] = Op{K: "unsub", T: ht, Slot: hs, Ctx: hc}
 			}
 		}
+		// ... and so is a handler that publishes the type it handles (a
+		// Sequential one never does: see OnHandler)
+		if len(k) > 2 && k[0] == 'h' && rapid.IntRange(0, 3).Draw(t, "selfPub") == 0 {
+			var ht, hs int
+			var hc bool
+			if _, err := fmtSscanf(k, &ht, &hs, &hc); err == nil {
+				ops[len(ops)-1] = Op{K: rapid.SampledFrom([]string{"pub", "pubany"}).Draw(t, "selfPubKind"), T: ht}
+			}
+		}
 		c.Nested[k] = ops
 	}
 	return c
